@@ -419,7 +419,10 @@ fn signature(cfg: &FsCfg, hist: &[Op], clause: &str, obs: &str) -> (String, Vec<
             if let Some(x) = cur[i + 1..].iter().find(|x| creator(x) && x.paths().first() == Some(&FILES[*f as usize])) {
                 // a re-creation that truncates starts from an empty file whatever the log
                 // still holds for the name: that variant is not part of the listed family
-                let trunc = if matches!(x, Op::OpenTrunc(_)) { ":recreated-with-truncate" } else { "" };
+                // (what exposes it is part of that signature: the re-creating open itself
+                // must already show an empty file; a later sync replaying the stale removal is
+                // the listed finding again)
+                let trunc = if matches!(x, Op::OpenTrunc(_)) { format!(":recreated-with-truncate:at-{}", cur.last().map(|o| o.kind()).unwrap_or("?")) } else { String::new() };
                 return (format!("fs-name-reuse:file-remove-then-recreate{trunc}|{obs}"), cur);
             }
         }
